@@ -41,3 +41,23 @@ impl Scalar {
 //@ spec
     ensures /*@fields*/ r == Expression::Scalar(named_scalar(into_string_chars(name), bits)), /*@name*/ named_scalar(into_string_chars(name), bits).name@ == into_string_chars(name),
 //@ end
+
+impl Scalar {
+//@ fn lib/il/scalar.rs :: impl Scalar :: fn temp
+//@ spec
+    ensures /*@fields*/ r.bits == bits && r.ssa is None,
+//@ end
+}
+
+// `scalar.into()` : Expression (lib/il/expression.rs, `impl From<Scalar> for Expression`), proved here
+impl vstd::std_specs::convert::FromSpecImpl<Scalar> for Expression {
+    open spec fn obeys_from_spec() -> bool { true }
+    open spec fn from_spec(s: Scalar) -> Expression { Expression::Scalar(s) }
+}
+//@ source lib/il/expression.rs
+impl From<Scalar> for Expression {
+//@ fn impl From<Scalar> for Expression :: fn from nopub
+//@ spec
+    ensures r == Expression::Scalar(scalar),
+//@ end
+}
